@@ -108,8 +108,8 @@ def sequence(ctx, stmts, fmt_of, acc, tagvar):
                     out.append((fmt_of.get(v.slice.id), s.lineno, v.value.id))
                 else:
                     out.append((fmt_kind(v.slice), s.lineno, v.value.id))
-            elif isinstance(v, ast.Constant) and v.value == ";":
-                pass
+            elif isinstance(v, ast.Constant) and isinstance(v.value, str) and v.value.strip() == ";":
+                out.append(("sep", s.lineno, None))
             else:
                 out.append((None, s.lineno, None))
             continue
@@ -164,7 +164,22 @@ def specificity(ctx, fn):
             fold = j
             break
     ctx.need(fold is not None, "R14.1", "fold loop not found")
-    seq = sequence(ctx, body[start + 1:fold], {}, acc, tagvar)
+    seq_all = sequence(ctx, body[start + 1:fold], {}, acc, tagvar)
+    # rule texts are joined into one declaration list: between two of them there must be a ';' (a sheet rule's text need not
+    # end in one), otherwise `fill:red` + `stroke:blue` becomes the single broken declaration `fill:redstroke:blue`
+    missing = []
+    prev_text = None
+    sep_since = False
+    for k, line, _ in seq_all:
+        if k == "sep":
+            sep_since = True
+            continue
+        if prev_text is not None and not sep_since:
+            missing.append("%s (line %d) directly after %s (line %d)" % (k, line, prev_text[0], prev_text[1]))
+        prev_text, sep_since = (k, line), False
+    ctx.ob("R14.1", "style assembly[rule texts separated by ';']", not missing, "; ".join(missing[:3]), body[start].lineno,
+           "`*{fill:red} rect{stroke:blue}` gives the rect the text `fill:redstroke:blue`: both rules are lost")
+    seq = [x for x in seq_all if x[0] != "sep"]
     ctx.need(len(seq) >= 6 and all(k is not None for k, _, _ in seq), "R14.1", "style assembly statements not classified: %s" % [(k, l) for k, l, _ in seq])
     tables = {t for k, _, t in seq if k != "inline"}
     ctx.need(len(tables) == 1, "R14.1", "style assembly reads more than one rule table: %s" % sorted(tables))
@@ -233,6 +248,22 @@ def stylesheet(ctx, fn):
             ok = not direct and scall.lineno <= mcall.lineno and any(raw.derived(a) for a in scall.args)
     ctx.ob("R14.2", "stylesheet[comments stripped before matching]", ok, "strip calls: %d, match calls: %d" % (len(strip), len(match)), br.lineno,
            "a comment containing braces or selectors must not be read as a rule")
+    # an empty block is a valid rule: the matcher must accept it, or `.c{} rect{fill:aqua}` files the second rule under "} rect"
+    from .. import rx as _rx
+
+    pat = None
+    for name, p_ in ctx.m.regexes.items():
+        if any(isinstance(x, ast.Name) and x.id == name for x in ast.walk(mcall)):
+            pat = p_
+    ctx.need(pat is not None, "R14.2", "style element branch: pattern of the rule matcher not folded")
+    try:
+        g = _rx.groups(_rx.parse(pat))
+        block = _rx.sublang(g[2]) if 2 in g else None
+    except (_rx.Unsupported, KeyError):
+        block = None
+    ctx.need(block is not None, "R14.2", "rule matcher: declaration-block group not interpreted")
+    ctx.ob("R14.2", "stylesheet[an empty rule is a rule]", block.accepts(""), "declaration-block group of %r %s the empty text" % (pat, "accepts" if block.accepts("") else "rejects"), br.lineno,
+           "with a non-empty block required, `.c{}` is skipped and the next match starts inside it: the following rule is stored under the selector '} rect' and never applies")
     # stores into the rule table
     stores = []
     for n in ast.walk(br):
@@ -494,6 +525,17 @@ def paint(ctx):
                     cond.append(v)
         ok = ok or (len(plain) == 1 and len(cond) == 1 and len(defs[tname]) == 2)
     ctx.ob("R14.5", "implicit_stroke_width[non-scaling-stroke uses the viewport transform]", ok, "", isw.lineno, "under vector-effect: non-scaling-stroke only the viewport transform scales the stroke")
+    # what is stored under that key: the viewport transforms only, never the accumulated transform attribute
+    sp = ctx.fn("SVG.parse", "R14.5")
+    vstores = []
+    for n in ast.walk(sp):
+        tg = n.targets[0] if isinstance(n, ast.Assign) and len(n.targets) == 1 else n.target if isinstance(n, ast.AugAssign) else None
+        if isinstance(tg, ast.Subscript) and const_value(ctx.m, tg.slice) == "viewport_transform":
+            vstores.append(n)
+    ctx.need(bool(vstores), "R14.5", "SVG.parse: no store of the viewport transform found")
+    bad = [n for n in vstores if any(isinstance(x, ast.Subscript) and const_value(ctx.m, x.slice) == "transform" for x in ast.walk(n.value))]
+    ctx.ob("R14.5", "SVG.parse[viewport_transform holds viewport transforms only]", not bad, "; ".join("line %d: %s" % (n.lineno, ast.unparse(n)[:70]) for n in bad), sp.lineno,
+           "storing the accumulated transform attribute scales a non-scaling stroke by every ancestor transform as well: <g transform=\"scale(2)\"><svg viewBox=...> doubles the stroke")
     r = ctx.fn("GraphicObject.reify", "R14.5")
     t = Taint(r, lambda n: attr_chain(n) == ["self", "implicit_stroke_width"], through_containers=False)
     st = [n for n in ast.walk(r) if isinstance(n, ast.Assign) and attr_chain(n.targets[0]) == ["self", "stroke_width"]]
